@@ -1,3 +1,4 @@
+import GufoSnmp.Model.Pool
 import GufoSnmp.Lemmas.Minimal
 import GufoSnmp.Lemmas.OidLemmas
 import GufoSnmp.Model.PyClient
@@ -111,6 +112,85 @@ theorem history_free (D : Digests) (C : Ciphers) (cs : CommunitySession) (call :
         (try cases hp) <;> simp [encCommunityMsg, encPdu] at he
   | err e => simp only [Session.send, hp, bind_err]
   | panic w => simp only [Session.send, hp, bind_panic]
+
+/-! ## The pool: every buffer it hands out is empty, whatever was done with the pool before
+
+This is what discharges the hypothesis `buf.cells = []` of `wire_community`, `wire_v3`, `wire_v3_priv`
+and `history_free` for every request of a process, not just the first. -/
+
+/-- all buffers waiting in the pool are empty -/
+def Pool.Clean (p : Pool) : Prop := ∀ b ∈ p.free, b.cells = []
+
+theorem pool_acquire_clean (p : Pool) (h : Pool.Clean p) :
+    (p.acquire).1.cells = [] ∧ Pool.Clean (p.acquire).2 := by
+  unfold Pool.acquire
+  cases hf : p.free with
+  | nil => exact ⟨rfl, by rw [Pool.Clean, hf]; intro b hb; cases hb⟩
+  | cons b rest =>
+    refine ⟨h b (by rw [hf]; simp), ?_⟩
+    intro x hx
+    exact h x (by rw [hf]; simp [hx])
+
+theorem pool_release_clean (p : Pool) (b : Buf) (h : Pool.Clean p) : Pool.Clean (p.release b) := by
+  intro x hx
+  simp only [Pool.release, List.mem_cons] at hx
+  rcases hx with rfl | hx
+  · rfl
+  · exact h x hx
+
+theorem pool_step_clean (s s' : PoolState) (op : PoolOp) (r : String) (h : Pool.Clean s.pool)
+    (hs : s.step op = some (s', r)) : Pool.Clean s'.pool := by
+  cases op with
+  | acquire =>
+    simp only [PoolState.step, Option.some.injEq, Prod.mk.injEq] at hs
+    rw [← hs.1]
+    exact (pool_acquire_clean s.pool h).2
+  | write k bytes =>
+    simp only [PoolState.step] at hs
+    split at hs
+    · split at hs
+      · simp only [Option.some.injEq, Prod.mk.injEq] at hs; rw [← hs.1]; exact h
+      · simp only [Option.some.injEq, Prod.mk.injEq] at hs; rw [← hs.1]; exact h
+      · cases hs
+    · cases hs
+  | drop k =>
+    simp only [PoolState.step] at hs
+    split at hs
+    · simp only [Option.some.injEq, Prod.mk.injEq] at hs
+      rw [← hs.1]
+      exact pool_release_clean s.pool _ h
+    · cases hs
+
+/-- the pool after a program -/
+def poolAfter : PoolState → List PoolOp → Option PoolState
+  | s, [] => some s
+  | s, op :: more =>
+    match s.step op with
+    | some (s', _) => poolAfter s' more
+    | none => none
+
+/-- **C03.pool_hands_out_empty**: after any program of acquires, writes through live handles and drops —
+any number of handles out at once, in any order — the next `acquire` returns an empty buffer -/
+theorem pool_hands_out_empty : ∀ (prog : List PoolOp) (s s' : PoolState), Pool.Clean s.pool →
+    poolAfter s prog = some s' → Pool.Clean s'.pool ∧ (s'.pool.acquire).1.cells = []
+  | [], s, s', h, hr => by
+    simp only [poolAfter, Option.some.injEq] at hr
+    subst hr
+    exact ⟨h, (pool_acquire_clean s.pool h).1⟩
+  | op :: more, s, s', h, hr => by
+    simp only [poolAfter] at hr
+    cases hs : s.step op with
+    | none => rw [hs] at hr; cases hr
+    | some v =>
+      obtain ⟨s1, r⟩ := v
+      rw [hs] at hr
+      exact pool_hands_out_empty more s1 s' (pool_step_clean s s1 op r h hs) hr
+
+/-- the process starts with an empty pool, which is clean -/
+theorem pool_initial_clean : Pool.Clean ({} : PoolState).pool := by intro b hb; cases hb
+
+example : (({} : PoolState).run [.acquire, .write 0 [1, 2], .acquire, .drop 0, .acquire, .drop 1, .acquire]) =
+    some ["0", "-", "0", "-", "0", "-", "0"] := by decide
 
 /-- the pool invariant: a handle that is dropped puts back a reset buffer -/
 theorem pool_reset (b : Buf) : (b.reset).cells = [] := rfl
